@@ -116,7 +116,7 @@ def base_env():
     env.rc_models = {n: ModelMethod(reactor_call(n), n) for n in ('handle_options', 'handle_commands')}
     env.loop('bert_e.reactor:Reactor.handle_options', 0, None)
     env.loop('bert_e.workflow.gitwaterflow:handle_comments', 0, None)
-    env.loop('bert_e.workflow.gitwaterflow:handle_comments', 1, inv_command_window)
+    env.loop('bert_e.workflow.gitwaterflow:handle_comments', 1, inv_command_window, top_level=True)
     env.site_hooks[('bert_e.workflow.gitwaterflow:handle_comments', 'handle_options')] = site_handle_options
     env.site_hooks[('bert_e.workflow.gitwaterflow:handle_comments', 'handle_commands')] = site_handle_commands
     env.exc_str = lambda I, e: SStr(I.fresh_term('str(err)', smt.STR, False))
